@@ -35,6 +35,10 @@ pub struct BNode {
     pub uid: Option<u8>,
     pub refs: Vec<(u8, RefSel)>,
     pub children: Vec<BNode>,
+    /// bit mask over `EXTRA_PROPS`: ordinary properties under names real files use (an operation
+    /// that treats some well-known property specially must still keep it)
+    #[serde(default)]
+    pub extras: u8,
 }
 
 impl BNode {
@@ -135,6 +139,7 @@ pub struct History {
 pub const CLASSES: [&str; 4] = ["Folder", "Model", "ObjectValue", "Part"];
 pub const NAMES: [&str; 5] = ["a", "b", "c", "d", "e"];
 pub const REF_PROPS: [&str; 3] = ["RefA", "RefB", "RefC"];
+pub const EXTRA_PROPS: [(&str, bool); 6] = [("Archivable", false), ("Archivable", true), ("Locked", true), ("Disabled", true), ("Anchored", false), ("Enabled", false)];
 
 pub fn uid_pool(i: u8) -> UniqueId {
     // four ids; two of them share a negative random part and differ only in index / time, so an
@@ -179,6 +184,7 @@ impl std::hash::Hash for Uk {
 pub enum MVal {
     Ref(Ref),
     Uid(UniqueId),
+    Bool(bool),
 }
 
 impl PartialEq for MVal {
@@ -186,6 +192,7 @@ impl PartialEq for MVal {
         match (self, o) {
             (MVal::Ref(a), MVal::Ref(b)) => a == b,
             (MVal::Uid(a), MVal::Uid(b)) => Uk(*a) == Uk(*b),
+            (MVal::Bool(a), MVal::Bool(b)) => a == b,
             _ => false,
         }
     }
@@ -441,6 +448,11 @@ impl World {
             if let Some(u) = s.uid {
                 props.insert("UniqueId".to_string(), MVal::Uid(uid_pool(u)));
             }
+            for (bit, (pname, val)) in EXTRA_PROPS.iter().enumerate() {
+                if s.extras >> bit & 1 == 1 {
+                    props.insert(pname.to_string(), MVal::Bool(*val));
+                }
+            }
             for (slot, sel) in &s.refs {
                 let pname = REF_PROPS[*slot as usize % REF_PROPS.len()];
                 let r = self.resolve_ref(sel, flat, i, absent);
@@ -494,6 +506,7 @@ impl World {
                         match v {
                             MVal::Ref(x) => rbx_types::Variant::Ref(*x),
                             MVal::Uid(u) => rbx_types::Variant::UniqueId(*u),
+                            MVal::Bool(b) => rbx_types::Variant::Bool(*b),
                         },
                     )
                 })
@@ -811,6 +824,7 @@ impl World {
                 let ok = match (v, actual) {
                     (MVal::Ref(a), Some(Variant::Ref(b))) => a == b,
                     (MVal::Uid(a), Some(Variant::UniqueId(b))) => Uk(*a) == Uk(*b),
+                    (MVal::Bool(a), Some(Variant::Bool(b))) => a == b,
                     _ => false,
                 };
                 if !ok {
@@ -1209,6 +1223,9 @@ impl World {
                     Variant::UniqueId(u) => {
                         props.insert(k.to_string(), MVal::Uid(*u));
                     }
+                    Variant::Bool(b) => {
+                        props.insert(k.to_string(), MVal::Bool(*b));
+                    }
                     _ => {}
                 }
             }
@@ -1223,17 +1240,22 @@ impl World {
                             return Err(fail("harness:load-value", format!("{}: {k} was {v:?}, file gave back {:?}", on.name, props.get(k))));
                         }
                     }
+                    MVal::Bool(_) => {
+                        if props.get(k) != Some(v) {
+                            return Err(fail("harness:load-value", format!("{}: {k} was {v:?}, file gave back {:?}", on.name, props.get(k))));
+                        }
+                    }
                     MVal::Uid(u) => {
                         let holders = decoded
                             .descendants()
-                            .filter(|i| decoded.get_unique_id(i.referent()) == Some(*u))
+                            .filter(|i| decoded.get_unique_id(i.referent()).map(Uk) == Some(Uk(*u)))
                             .count();
                         let actual = match props.get(k) {
                             Some(MVal::Uid(a)) => *a,
                             other => return Err(fail("c12:id-changed-by-load", format!("{}: UniqueId {u} came back as {other:?}", on.name))),
                         };
                         let fresh = !self.seen_ids.contains(&Uk(actual));
-                        if holders != 1 || !(actual == *u || fresh) {
+                        if holders != 1 || !(Uk(actual) == Uk(*u) || fresh) {
                             return Err(fail(
                                 "c12:id-changed-by-load",
                                 format!("{}: UniqueId {u} came back as {actual}; {holders} decoded instance(s) hold the original", on.name),
@@ -1533,13 +1555,15 @@ pub fn bnode(depth: u32) -> BoxedStrategy<BNode> {
         0u8..5,
         proptest::option::weighted(0.6, 0u8..4),
         proptest::collection::vec((0u8..3, ref_sel()), 0..3),
+        prop_oneof![3 => Just(0u8), 2 => 0u8..64],
     )
-        .prop_map(|(class, name, uid, refs)| BNode {
+        .prop_map(|(class, name, uid, refs, extras)| BNode {
             class,
             name,
             uid,
             refs,
             children: vec![],
+            extras,
         });
     leaf.prop_recursive(depth, 12, 3, |inner| {
         (
@@ -1548,13 +1572,15 @@ pub fn bnode(depth: u32) -> BoxedStrategy<BNode> {
             proptest::option::weighted(0.6, 0u8..4),
             proptest::collection::vec((0u8..3, ref_sel()), 0..3),
             proptest::collection::vec(inner, 0..4),
+            prop_oneof![3 => Just(0u8), 2 => 0u8..64],
         )
-            .prop_map(|(class, name, uid, refs, children)| BNode {
+            .prop_map(|(class, name, uid, refs, children, extras)| BNode {
                 class,
                 name,
                 uid,
                 refs,
                 children,
+                extras,
             })
     })
     .boxed()
